@@ -1,5 +1,5 @@
 (* C18 — totality of the SRT reader's line machine and of the _TextParser cursor (guard models of Model/ReaderGuards.v) *)
-From TT Require Import Base.Prelude Model.Outcome Model.ReaderGuards.
+From TT Require Import Base.Prelude Model.Outcome Gen.GuardTables Model.ReaderGuards.
 
 (* ---------------------------------------------------------------------------------------------- the line machine *)
 (* which variables are bound in which state *)
@@ -32,7 +32,8 @@ Proof.
     destruct (sv_blank l); [inversion H; subst; split; [split; [assumption| rewrite St; exact I]|auto]|].
     destruct (sv_counter l); simpl in H; [|discriminate]. inversion H; subst. split; [split; simpl; auto|auto].
   - destruct item as [l|]; [|discriminate].
-    destruct (sv_tc l); simpl in H; [|discriminate]. inversion H; subst. split; [split; simpl; auto|auto].
+    destruct (sv_tc l); simpl in H; [|discriminate]. destruct (sv_tc_long l); [discriminate|].
+    inversion H; subst. split; [split; simpl; auto|auto].
   - assert (F : flush S_COUNTER v = inl v' -> srt_inv v' /\ (forall x, In x (s_oracle v') -> In x (s_oracle v))).
     { unfold flush. rewrite Hb. simpl. rewrite Hs. destruct (next_sub (s_oracle v)) as [r o'] eqn:N.
       destruct (outcome_of_sub r); [discriminate|]. intro E; inversion E; subst. split; [split; simpl; auto|].
@@ -66,7 +67,7 @@ Proof.
   intros I H. pose proof I as [Hb Hs]. unfold srt_step in H.
   destruct (s_state v) eqn:St.
   - destruct item as [l|]; [|discriminate]. destruct (sv_blank l); [discriminate|]. destruct (sv_counter l); discriminate.
-  - destruct item as [l|]; [|discriminate]. destruct (sv_tc l); discriminate.
+  - destruct item as [l|]; [|discriminate]. destruct (sv_tc l); [destruct (sv_tc_long l)|]; discriminate.
   - destruct item as [l|]; [destruct (sv_blank l)|]; try (apply flush_internal; auto; fail).
     unfold text_line in H. rewrite Hs in H. discriminate.
   - destruct item as [l|]; [destruct (sv_blank l)|]; try (apply flush_internal; auto; fail).
@@ -100,6 +101,192 @@ Lemma srt_total oracle content :
 Proof.
   intro H. destruct (srt_run oracle content) eqn:E; try reflexivity.
   apply srt_run_internal in E. apply H in E. discriminate.
+Qed.
+
+(* ---- where a format error of the line machine comes from: the cue-text parser (a colour parse_color rejects), or int() of an
+   hour field with more digits than the interpreter converts (repository commit 4d63802 made such fields match) ------------- *)
+Lemma next_sub_format (o : list sub_result) k o' : next_sub o = (SubFormat k, o') -> In (SubFormat k) o.
+Proof. destruct o; simpl; intro H; inversion H; subst. now left. Qed.
+
+Lemma outcome_of_sub_format r k : outcome_of_sub r = Some (FormatError k) -> r = SubFormat k.
+Proof. destruct r; simpl; intro H; inversion H; reflexivity. Qed.
+
+Lemma flush_format v k : flush S_COUNTER v = inr (FormatError k) -> In (SubFormat k) (s_oracle v).
+Proof.
+  unfold flush. destruct (negb (s_text_bound v)); [discriminate|]. destruct (s_p v); [|discriminate].
+  destruct (next_sub (s_oracle v)) as [r o'] eqn:N. destruct (outcome_of_sub r) eqn:O; [|discriminate].
+  intro E; inversion E; subst. apply outcome_of_sub_format in O. subst. eapply next_sub_format; eauto.
+Qed.
+
+Lemma text_line_format st v k : text_line st v <> inr (FormatError k).
+Proof.
+  unfold text_line. destruct st; try (destruct (negb (s_text_bound v)); discriminate).
+  destruct (s_p v) as [[|]|]; discriminate.
+Qed.
+
+Lemma srt_step_format v item k :
+  srt_step v item = inr (FormatError k) ->
+  In (SubFormat k) (s_oracle v) \/ (k = ValueErr /\ exists l, item = Some l /\ sv_tc_long l = true).
+Proof.
+  unfold srt_step. intro H. destruct (s_state v) eqn:St.
+  - destruct item as [l|]; [|discriminate]. destruct (sv_blank l); [discriminate|]. destruct (sv_counter l); discriminate.
+  - destruct item as [l|]; [|discriminate]. destruct (sv_tc l); [|discriminate]. destruct (sv_tc_long l) eqn:L; [|discriminate].
+    inversion H; subst. right. split; [reflexivity|]. exists l. auto.
+  - left. destruct item as [l|]; [destruct (sv_blank l)|]; try (apply flush_format; assumption).
+    exfalso. eapply text_line_format; eauto.
+  - left. destruct item as [l|]; [destruct (sv_blank l)|]; try (apply flush_format; assumption).
+    exfalso. eapply text_line_format; eauto.
+Qed.
+
+Lemma srt_step_oracle_incl v item v' : srt_step v item = inl v' -> forall x, In x (s_oracle v') -> In x (s_oracle v).
+Proof.
+  unfold srt_step. intro H.
+  assert (F : flush S_COUNTER v = inl v' -> forall x, In x (s_oracle v') -> In x (s_oracle v)).
+  { unfold flush. destruct (negb (s_text_bound v)); [discriminate|]. destruct (s_p v); [|discriminate].
+    destruct (next_sub (s_oracle v)) as [r o'] eqn:N. destruct (outcome_of_sub r); [discriminate|].
+    intro E; inversion E; subst. simpl. eapply next_sub_incl; eauto. }
+  assert (T : forall st, text_line st v = inl v' -> forall x, In x (s_oracle v') -> In x (s_oracle v)).
+  { intro st. unfold text_line. destruct st; try (destruct (negb (s_text_bound v)); [discriminate|]; intro E; inversion E; subst; auto).
+    destruct (s_p v) as [[|]|]; try discriminate. intro E; inversion E; subst; auto. }
+  destruct (s_state v).
+  - destruct item as [l|]; [|discriminate]. destruct (sv_blank l); [inversion H; subst; auto|].
+    destruct (sv_counter l); simpl in H; [|discriminate]. inversion H; subst; auto.
+  - destruct item as [l|]; [|discriminate]. destruct (sv_tc l); simpl in H; [|discriminate]. destruct (sv_tc_long l); [discriminate|].
+    inversion H; subst; auto.
+  - destruct item as [l|]; [destruct (sv_blank l)|]; eauto.
+  - destruct item as [l|]; [destruct (sv_blank l)|]; eauto.
+Qed.
+
+Lemma srt_loop_format items : forall v k,
+  srt_loop v items = inr (FormatError k) ->
+  In (SubFormat k) (s_oracle v) \/ (k = ValueErr /\ existsb sv_tc_long items = true).
+Proof.
+  induction items as [|l rest IH]; intros v k H; simpl in H.
+  - destruct (srt_step v None) eqn:E; [discriminate|]. inversion H; subst.
+    destruct (srt_step_format _ _ _ E) as [A|[_ [l [B _]]]]; [left; assumption|discriminate].
+  - destruct (srt_step v (Some l)) eqn:E.
+    + destruct (IH _ _ H) as [A|[A B]].
+      * left. eapply srt_step_oracle_incl; eauto.
+      * right. split; [assumption|]. simpl. rewrite B. apply orb_true_r.
+    + inversion H; subst. destruct (srt_step_format _ _ _ E) as [A|[A [l' [B L]]]]; [left; assumption|].
+      right. split; [assumption|]. inversion B; subst. simpl. rewrite L. reflexivity.
+Qed.
+
+Lemma existsb_map_c {A B} (f : A -> B) (p : B -> bool) l : existsb p (map f l) = existsb (fun x => p (f x)) l.
+Proof. induction l as [|x r IH]; simpl; [reflexivity|rewrite IH; reflexivity]. Qed.
+
+Lemma srt_run_format oracle content k :
+  srt_run oracle content = FormatError k ->
+  In (SubFormat k) oracle \/ (k = ValueErr /\ existsb (fun l => sv_tc_long (srt_classify l)) (readlines content) = true).
+Proof.
+  unfold srt_run, srt_views. destruct (srt_loop (srt_init true oracle) (map srt_classify (readlines content))) eqn:E; [discriminate|].
+  intro; subst. apply srt_loop_format in E. destruct E as [A|[A B]]; [left; exact A|].
+  right. split; [assumption|]. rewrite existsb_map_c in B. exact B.
+Qed.
+
+(* a time-code line can only be "too long for int()" when it is longer than the digit limit: the hour fields are part of it *)
+Lemma span_digits_bound s : forall n, fst (span_digits n s) <= n + Z.of_nat (length s).
+Proof.
+  induction s as [|c r IH]; intro n; simpl; [lia|].
+  destruct (ascii_digit c); [specialize (IH (n + 1)); lia|simpl; lia].
+Qed.
+Lemma span_digits_rest s : forall n, (length (snd (span_digits n s)) <= length s)%nat.
+Proof.
+  induction s as [|c r IH]; intro n; simpl; [lia|].
+  destruct (ascii_digit c); [specialize (IH (n + 1)); lia|simpl; lia].
+Qed.
+
+Lemma eat_len c s r : eat c s = Some r -> (length r <= length s)%nat.
+Proof. destruct s as [|x s']; simpl; [discriminate|]. destruct (x =? c); [|discriminate]. intro E; inversion E; subst. lia. Qed.
+Lemma eat_d2_len s r : eat_d2 s = Some r -> (length r <= length s)%nat.
+Proof. destruct s as [|a [|b s']]; simpl; try discriminate. destruct (ascii_digit a && ascii_digit b); [|discriminate]. intro E; inversion E; subst. lia. Qed.
+Lemma eat_d3_len s r : eat_d3 s = Some r -> (length r <= length s)%nat.
+Proof.
+  destruct s as [|a [|b [|c s']]]; simpl; try discriminate. destruct (ascii_digit a && ascii_digit b && ascii_digit c); [|discriminate].
+  intro E; inversion E; subst. lia.
+Qed.
+Lemma drop_while_len f s : (length (drop_while f s) <= length s)%nat.
+Proof. induction s as [|c r IH]; simpl; [lia|]. destruct (f c); simpl; lia. Qed.
+Lemma eat_spaces1_len s r : eat_spaces1 s = Some r -> (length r <= length s)%nat.
+Proof.
+  destruct s as [|c s']; simpl; [discriminate|]. destruct (re_space c); [|discriminate]. intro E; inversion E; subst.
+  pose proof (drop_while_len re_space s'). lia.
+Qed.
+Lemma obind_len (f : text -> option text) (n : nat) :
+  (forall s r, f s = Some r -> (length r <= length s)%nat) ->
+  forall o r, (forall s, o = Some s -> (length s <= n)%nat) -> o >>= f = Some r -> (length r <= n)%nat.
+Proof. intros F o r Ho H. destruct o as [s|]; simpl in H; [|discriminate]. specialize (Ho s eq_refl). apply F in H. lia. Qed.
+
+Lemma srt_ts_len s n r : srt_ts s = Some (n, r) -> n <= Z.of_nat (length s) /\ (length r <= length s)%nat.
+Proof.
+  unfold srt_ts, eat_d2p. pose proof (span_digits_bound s 0) as B. pose proof (span_digits_rest s 0) as R.
+  destruct (span_digits 0 s) as [m r0]; simpl in B, R. destruct (2 <=? m); [|discriminate].
+  destruct (eat 58 r0 >>= eat_d2 >>= eat 58 >>= eat_d2 >>= eat 44 >>= eat_d3) as [r'|] eqn:E; [|discriminate].
+  intro H; inversion H; subst. split; [lia|].
+  assert (L : (length r <= length r0)%nat); [|lia].
+  revert E. apply obind_len; [apply eat_d3_len|]. intros s5. apply obind_len; [apply eat_len|]. intros s4.
+  apply obind_len; [apply eat_d2_len|]. intros s3. apply obind_len; [apply eat_len|]. intros s2.
+  apply obind_len; [apply eat_d2_len|]. intros s1. apply eat_len.
+Qed.
+
+Lemma srt_tc_at_len s nb ne : srt_tc_at s = Some (nb, ne) -> nb <= Z.of_nat (length s) /\ ne <= Z.of_nat (length s).
+Proof.
+  unfold srt_tc_at. destruct (srt_ts s) as [[n r]|] eqn:T; [|discriminate]. apply srt_ts_len in T as [Tn Tr].
+  destruct (eat_spaces1 r >>= eat_arrow >>= eat_spaces1) as [r'|] eqn:E; [|discriminate].
+  assert (L : (length r' <= length r)%nat).
+  { revert E. apply obind_len; [apply eat_spaces1_len|]. intros s2. apply obind_len.
+    - intros x y. unfold eat_arrow. apply obind_len; [apply eat_len|]. intros s4. apply obind_len; [apply eat_len|]. intros s3. apply eat_len.
+    - intros s1. apply eat_spaces1_len. }
+  destruct (srt_ts r') as [[n' r'']|] eqn:T'; [|discriminate]. apply srt_ts_len in T' as [Tn' _].
+  intro H; inversion H; subst. lia.
+Qed.
+
+Lemma srt_tc_search_len s : forall nb ne, srt_tc_search s = Some (nb, ne) -> nb <= Z.of_nat (length s) /\ ne <= Z.of_nat (length s).
+Proof.
+  induction s as [|c r IH]; intros nb ne H.
+  - vm_compute in H. discriminate.
+  - cbn [srt_tc_search] in H. destruct (srt_tc_at (c :: r)) as [[a b]|] eqn:E.
+    + inversion H; subst. apply srt_tc_at_len in E. exact E.
+    + apply IH in H. simpl length. lia.
+Qed.
+
+(* a line of at most int_max_str_digits characters never makes int() refuse an hour field *)
+Lemma srt_short_line_not_long l : Z.of_nat (length l) <= int_max_str_digits -> sv_tc_long (srt_classify l) = false.
+Proof.
+  intro H. unfold srt_classify. cbn [sv_tc_long]. destruct (srt_tc_search l) as [[nb ne]|] eqn:E; [|reflexivity].
+  apply srt_tc_search_len in E. unfold srt_hours_too_long. cbn [fst snd]. lia.
+Qed.
+
+(* hence: on a file all of whose lines are that short, a format error of the SRT guard is one the cue-text parser raised *)
+Lemma srt_run_format_short oracle content k :
+  (forall l, In l (readlines content) -> Z.of_nat (length l) <= int_max_str_digits) ->
+  srt_run oracle content = FormatError k -> In (SubFormat k) oracle.
+Proof.
+  intros Hs H. apply srt_run_format in H as [A|[_ B]]; [exact A|].
+  apply existsb_exists in B as [l [Hl Bl]]. rewrite (srt_short_line_not_long l (Hs l Hl)) in Bl. discriminate.
+Qed.
+
+(* every hour field of two or more ASCII digits is accepted (the writer prints as many as the hours need): "H..H:MM:SS,mmm" *)
+Lemma span_digits_all ds : forall n rest,
+  forallb ascii_digit ds = true -> (match rest with c :: _ => ascii_digit c = false | [] => True end) ->
+  span_digits n (ds ++ rest) = (n + Z.of_nat (length ds), rest).
+Proof.
+  induction ds as [|d r IH]; intros n rest Hd Hr.
+  - simpl. replace (n + 0) with n by lia. destruct rest as [|c rest']; [reflexivity|]. simpl. rewrite Hr. reflexivity.
+  - simpl in Hd. apply andb_true_iff in Hd as [Hd1 Hd2]. simpl app. cbn [span_digits]. rewrite Hd1. rewrite IH; auto.
+    f_equal. simpl length. lia.
+Qed.
+Lemma srt_ts_any_hours hh m1 m2 s1 s2 f1 f2 f3 rest :
+  forallb ascii_digit hh = true -> (2 <= length hh)%nat -> forallb ascii_digit [m1; m2; s1; s2; f1; f2; f3] = true ->
+  srt_ts (hh ++ 58 :: m1 :: m2 :: 58 :: s1 :: s2 :: 44 :: f1 :: f2 :: f3 :: rest) = Some (Z.of_nat (length hh), rest).
+Proof.
+  intros Hh Hl Hd. unfold srt_ts, eat_d2p. rewrite span_digits_all; [|assumption|reflexivity].
+  replace (2 <=? 0 + Z.of_nat (length hh)) with true by lia.
+  simpl in Hd. apply andb_true_iff in Hd as [A1 Hd]. apply andb_true_iff in Hd as [A2 Hd]. apply andb_true_iff in Hd as [A3 Hd].
+  apply andb_true_iff in Hd as [A4 Hd]. apply andb_true_iff in Hd as [A5 Hd]. apply andb_true_iff in Hd as [A6 Hd].
+  apply andb_true_iff in Hd as [A7 _].
+  cbn [eat eat_d2 eat_d3 obind]. rewrite Z.eqb_refl. cbn [obind eat_d2]. rewrite A1, A2. cbn [andb obind eat]. rewrite Z.eqb_refl.
+  cbn [obind eat_d2]. rewrite A3, A4. cbn [andb obind eat]. rewrite Z.eqb_refl. cbn [obind eat_d3]. rewrite A5, A6, A7. reflexivity.
 Qed.
 
 (* ---------------------------------------------------------------------------------------------- the cursor *)
